@@ -1,8 +1,1145 @@
 #!/venv/bin/python
 """py2lean: translate a whitelisted set of pure tracklib functions from /repo's CURRENT source into Lean 4
-definitions (lean/TracklibVerif/Gen/*.lean), regenerated on every run.  [stub — filled in by the tie work]
+definitions (lean/TracklibVerif/Gen/*.lean), regenerated on every run.
 
-    tools/py2lean.py [--repo /repo]
+    tools/py2lean.py [--repo /repo] [--out DIR] [--print]          (self-test: tools/py2lean_selftest.py)
+
+The generated definitions are tied to the hand-written models by equality theorems in
+lean/TracklibVerif/Tie/Cnn.lean; when a translated function changes, the generated Lean changes and the
+committed equality proof no longer compiles (the engine then reports the broken tie and searches for an input).
+A file is rewritten only when its content changes. Exit code 0 unless the tool itself is broken.
+
+WHAT IS TRANSLATED.  One Python function (module level, or "Class.method") -> one Lean
+`def NAME ... : Py.M τ` (`Py.M = Except Py.Err`, lean/TracklibVerif/Model/PyPrelude.lean). The map is directed
+by the syntax of the function's `ast`: one rule per node kind; a rule looks at its node, the types of its sub-terms
+and the declared signature (WHITELIST below), nothing else; there is no per-function code. ALL semantic choices
+(what `/`, `==`, `math.fabs`, `L[k]` ... mean) are the definitions of PyPrelude.lean; this file only decides WHICH of
+them a node is, from the Python types:  float -> `α` (abstract scalar), int -> `Int`, bool -> `Bool`,
+list[float] -> `List α`, tuple[..] -> product, optional[τ] -> `Option τ` (a function with `return None` on some
+path), object[C] -> the tuple of the attributes of class C in constructor order. Types are only used to choose the
+operation; a wrong choice makes the generated file (or the tie) fail to type-check — it cannot make a tie true.
+
+THE DECLARED SIGNATURE of a function gives: the type of every parameter; the return type; optionally the type
+(int / float) of a local that is bound to a bare integer literal (`xb = 0`); for an object parameter a dict:
+  {"attr": type, "getter()": type, ...}                  only these attributes / argument-less accessors are read;
+                                                          each is ONE Lean parameter `<param>_<attr>`; an accessor is
+                                                          ASSUMED to be a pure getter (it is not translated);
+                                                          "getter()": "object[C]" = one parameter per attribute of C
+  {"__class__": "C", "attr": "float", ...}               an instance of class C of the same file: in addition its
+                                                          methods and `+`/`-` are resolved STATICALLY to C's (translated)
+                                                          methods — assumes the run-time object is not of a subclass
+                                                          overriding them.
+
+ACCEPTED SUBSET (anything else: the function is NOT emitted, the reason is written as a comment in the
+generated file, exit code stays 0, and every tie theorem that mentions it stops compiling — never a guess):
+
+  statements   x = e | x, y = e (tuple) | x op= e | if/elif/else | return e | return | pass | docstring |
+               x.append(e) for a list x created in this function by list() / [] / [..] |
+               x = C(a, ..) / x = <object-valued call> (LOCAL OBJECT, below) | x.attr = e | x.attr op= e |
+               print(...) (dropped; strings are opaque, below)
+  expressions  names, int / float / bool literals, unary - + not, + - * / on floats (int operands converted),
+               + - * // % on ints, ** and pow(x, y) with a float operand (uninterpreted `pow`), comparisons (chains of
+               two), and / or / & / | on bools, e1 if c else e2, L[k] (k a literal >= 0) on a list or a tuple, tuples,
+               list displays, math.sqrt/sin/cos/tan/atan/atan2/exp/log/floor and math.pi (uninterpreted parameters),
+               math.fabs, abs, min/max of two numbers (one a float), float(x), int(x) (uninterpreted `trunc` on a float),
+               x.is_integer(), declared attributes / accessors of object parameters, attributes of local objects,
+               module constants, calls of other whitelisted functions / methods of the same file.
+  NOT accepted loops, comprehensions, recursion, subscripts that are not literals, subscript assignment, try, with,
+               lambda, global, starred / keyword arguments, omitted (defaulted) arguments, truthiness of non-bools,
+               a name that may be unbound, a function that can fall off its end unless its return type is optional,
+               an object used as a plain value (alias, argument of an untranslated call), stores into a parameter.
+
+TRANSLATION RULES (⟦·⟧ on statement lists gives a term of type `Py.M τ`):
+  ⟦return e ; _⟧            = B(e, v => .ok v)                (statements after a return are unreachable)
+  ⟦x = e ; rest⟧            = B(e, v => let x := v; ⟦rest⟧)       (re-assignment = shadowing)
+  ⟦if c: A else: B ; rest⟧  = B(c, v => if v then ⟦A ; rest⟧ else ⟦B ; rest⟧)      (rest is duplicated; each path
+                              has its own environment: a name not bound on the path is refused, not guessed)
+  ⟦[]⟧                      = .ok none   if the return type is optional, otherwise not accepted
+  B(e, k) evaluates e: every sub-expression that can raise (float `/`, int `//` `%` by a non-literal, `L[k]`, a
+  call of a translated function) is bound to a fresh name `py_tN` with `Py.bind`, in Python's evaluation
+  order (left operand before right operand, arguments left to right), the remaining pure expression is
+  rendered fully parenthesised. `a and b` / `a or b` / `x if c else y` whose later operands can raise are
+  bound as one conditional (`if a then ⟦b⟧ else .ok false`), so nothing is evaluated that Python would skip.
+  `/`, `//`, `%` by a non-zero numeric LITERAL (or a module constant defined as one) cannot raise and are
+  rendered as the plain operation.
+  MODULE CONSTANT: a name that is neither a parameter nor assigned in the function, bound exactly once at module level,
+  never declared `global`, whose defining expression is literal arithmetic: that expression is inlined (a rebinding of
+  the module attribute from outside the file at run time is not seen).
+  LOCAL OBJECT: `x = C(a, b, c)` for a class C of the same file whose `__init__` is exactly `self.p = p` for each
+  parameter (checked on the current source), or `x = <call returning object[C]>`: one Lean variable per attribute
+  (`x_p`); `x.p = e`, `x.p op= e`, `x.p`, `x.method()` (C.method translated, called with x's attributes) and `return x`
+  are accepted; any other use of `x` (alias, argument of an untranslated call) is refused, so no alias can exist.
+  STRINGS: `"…"`, `"…".format(…)`, `str(…)`, `+` of strings have the opaque type S; an S can only be bound to a local
+  or passed to print; nothing is rendered for them and their sub-expressions are ASSUMED not to raise.
 """
+import argparse
+import ast
+import os
 import sys
-sys.exit(0)
+
+VERIF = os.path.dirname(os.path.dirname(os.path.abspath(__file__)))
+
+# --------------------------------------------------------------------------------------------------------
+# Declared signatures: the ONLY per-function input of the translator.
+#   (python file under tracklib/, qualified python name, lean name, {param: type}, return type, {local: type})
+# The first parameter `self` of a method is not supported (only static methods / functions).
+# --------------------------------------------------------------------------------------------------------
+WHITELIST = [
+    ("util/geometry.py", "cartesienne", "cartesienne", {"segment": "list[float]"}, "list[float]", {}),
+    ("util/geometry.py", "__eval", "py__eval", {"param": "list[float]", "x": "float", "y": "float"}, "float", {}),
+    ("util/geometry.py", "dist_point_droite", "dist_point_droite", {"param": "list[float]", "x": "float", "y": "float"}, "float", {}),
+    ("util/geometry.py", "distance_to_segment", "distance_to_segment",
+     {"x0": "float", "y0": "float", "x1": "float", "y1": "float", "x2": "float", "y2": "float"}, "float", {}),
+    ("util/geometry.py", "projection_droite", "projection_droite", {"param": "list[float]", "x": "float", "y": "float"},
+     "tuple[float,float]", {"xb": "float"}),
+    ("util/geometry.py", "proj_segment", "proj_segment", {"segment": "list[float]", "x": "float", "y": "float"},
+     "tuple[float,float,float]", {"xb": "float"}),
+    ("util/geometry.py", "triangle_area", "triangle_area",
+     {"x0": "float", "y0": "float", "x1": "float", "y1": "float", "x2": "float", "y2": "float"}, "float", {}),
+    ("util/geometry.py", "isSegmentIntersects", "isSegmentIntersects", {"segment1": "list[float]", "segment2": "list[float]"}, "bool", {}),
+    ("core/obs_time.py", "ObsTime.isLeapYear", "isLeapYear", {"year": "int"}, "bool", {}),
+    ("core/spatial_index.py", "SpatialIndex.__getCell", "SpatialIndex_getCell",
+     {"self": {"xmin": "float", "xmax": "float", "ymin": "float", "ymax": "float", "dX": "float", "dY": "float",
+               "csize": "int", "lsize": "int"},
+      "coord": {"getX()": "float", "getY()": "float"}}, "optional[tuple[float,float]]", {}),
+    ("core/spatial_index.py", "SpatialIndex.groundDistanceToUnits", "SpatialIndex_groundDistanceToUnits",
+     {"self": {"dX": "float", "dY": "float"}, "distance": "float"}, "int", {}),
+    ("core/obs_coords.py", "GeoCoords.toECEFCoords", "GeoCoords_toECEFCoords",
+     {"self": {"lon": "float", "lat": "float", "hgt": "float"}}, "object[ECEFCoords]", {}),
+    ("core/obs_coords.py", "ECEFCoords.toGeoCoords", "ECEFCoords_toGeoCoords",
+     {"self": {"X": "float", "Y": "float", "Z": "float"}}, "object[GeoCoords]", {}),
+    ("core/obs_coords.py", "ECEFCoords.toENUCoords", "ECEFCoords_toENUCoords",
+     {"self": {"X": "float", "Y": "float", "Z": "float"}, "base": {"toECEFCoords()": "object[ECEFCoords]"}}, "object[ENUCoords]", {}),
+    ("core/obs_coords.py", "ENUCoords.toECEFCoords", "ENUCoords_toECEFCoords",
+     {"self": {"E": "float", "N": "float", "U": "float"}, "base": {"toECEFCoords()": "object[ECEFCoords]"}}, "object[ECEFCoords]", {}),
+    ("core/obs_coords.py", "ENUCoords.__sub__", "ENUCoords_sub", {"self": {"__class__": "ENUCoords", "E": "float", "N": "float", "U": "float"}, "p": {"__class__": "ENUCoords", "E": "float", "N": "float", "U": "float"}}, "object[ENUCoords]", {}),
+    ("core/obs_coords.py", "ENUCoords.norm2D", "ENUCoords_norm2D", {"self": {"__class__": "ENUCoords", "E": "float", "N": "float"}}, "float", {}),
+    ("core/obs_coords.py", "ENUCoords.distance2DTo", "ENUCoords_distance2DTo", {"self": {"__class__": "ENUCoords", "E": "float", "N": "float", "U": "float"}, "point": {"__class__": "ENUCoords", "E": "float", "N": "float", "U": "float"}}, "float", {}),
+    ("core/raster.py", "Raster.getCell", "Raster_getCell",
+     {"self": {"xmin": "float", "xmax": "float", "ymin": "float", "ymax": "float", "resolution": "tuple[float,float]",
+               "nrow": "int", "ncol": "int"},
+      "coord": {"getX()": "float", "getY()": "float"}}, "optional[tuple[int,int]]", {}),
+]
+
+# uninterpreted functions passed as parameters of the generated definition: name -> (arity, result type, Lean type)
+MATH_FUNS = {"sqrt": (1, "F", "α → α"), "sin": (1, "F", "α → α"), "cos": (1, "F", "α → α"), "tan": (1, "F", "α → α"),
+             "atan": (1, "F", "α → α"), "atan2": (2, "F", "α → α → α"), "exp": (1, "F", "α → α"), "log": (1, "F", "α → α"),
+             "floor": (1, "I", "α → Int"),      # math.floor
+             "trunc": (1, "I", "α → Int"),      # int(x) on a float: truncation toward zero
+             "pi": (0, "F", "α"),               # math.pi
+             "pow": (2, "F", "α → α → α")}      # x ** y and pow(x, y) with a float operand (C's pow)
+MATH_ORDER = ["pi", "sqrt", "sin", "cos", "tan", "atan", "atan2", "exp", "log", "pow", "floor", "trunc"]
+LEAN_KEYWORDS = {"«", "at", "from", "end", "fun", "in", "do", "then", "else", "if", "let", "have", "show", "by", "match",
+                 "with", "where", "def", "theorem", "open", "section", "namespace", "variable", "instance", "class",
+                 "structure", "import", "Type", "Prop", "Sort", "forall", "exists", "using", "this", "mut", "for",
+                 "return", "true", "false", "none", "some", "α", "Py"}
+INST_ORDER = ["Add", "Sub", "Mul", "Div", "Neg", "LT", "LE", "DecidableLT", "DecidableLE", "IntCast", "OfScientific"]
+MAX_TERM = 200000  # characters; duplication of continuations is bounded
+
+
+class Unsupported(Exception):
+    pass
+
+
+def bad(node, why):
+    line = getattr(node, "lineno", "?")
+    raise Unsupported("line %s: %s" % (line, why))
+
+
+# ----------------------------------------------- types ---------------------------------------------------
+def parse_ty(s):
+    s = s.replace(" ", "")
+    if s in ("float", "int", "bool"):
+        return {"float": "F", "int": "I", "bool": "B"}[s]
+    if s.startswith("object[") and s.endswith("]"):
+        return ("Obj", s[7:-1])
+    if s.startswith("list[") and s.endswith("]"):
+        return ("L", parse_ty(s[5:-1]))
+    if s.startswith("optional[") and s.endswith("]"):
+        return ("O", parse_ty(s[9:-1]))
+    if s.startswith("tuple[") and s.endswith("]"):
+        parts, depth, cur = [], 0, ""
+        for ch in s[6:-1]:
+            if ch == "," and depth == 0:
+                parts.append(cur)
+                cur = ""
+            else:
+                depth += ch == "["
+                depth -= ch == "]"
+                cur += ch
+        parts.append(cur)
+        return ("T", tuple(parse_ty(p) for p in parts))
+    raise ValueError("bad type " + s)
+
+
+def lean_ty(t):
+    if t == "F":
+        return "α"
+    if t == "I":
+        return "Int"
+    if t == "B":
+        return "Bool"
+    if t[0] == "L":
+        return "(List %s)" % lean_ty(t[1])
+    if t[0] == "O":
+        return "(Option %s)" % lean_ty(t[1])
+    if t[0] == "T":
+        return "(" + " × ".join(lean_ty(x) for x in t[1]) + ")"
+    raise ValueError(t)
+
+
+def uses_alpha(t):
+    if t == "F":
+        return True
+    if isinstance(t, tuple) and t[0] == "R":
+        return False
+    if isinstance(t, tuple) and t[0] == "Obj":
+        return True
+    if isinstance(t, tuple):
+        if t[0] in ("L", "O"):
+            return uses_alpha(t[1])
+        return any(uses_alpha(x) for x in t[1])
+    return False
+
+
+def tuple_proj(term, i, n):
+    """i-th component of a right-nested Lean product of n components"""
+    s = term + ".2" * i
+    if i < n - 1:
+        s += ".1"
+    return s
+
+
+RESERVED = {"decide", "Int", "Nat", "List", "Option", "Bool", "Py", "some", "none", "true", "false", "Type", "TV",
+            # tokens the engine greps for in every Lean source
+            "sorry", "admit", "native_decide", "bv_decide", "implemented_by", "unsafe", "axiom", "maxHeartbeats"} | set(MATH_FUNS)
+
+
+def ident(name):
+    """a Python parameter / local as a Lean binder: the same name; names the generated text itself uses are refused"""
+    if name in RESERVED or name in {e[2] for e in WHITELIST}:
+        raise Unsupported("python name %s would capture a name used by the generated code" % name)
+    if name in LEAN_KEYWORDS:
+        return "«%s»" % name
+    if name.startswith("py_t"):
+        raise Unsupported("python name %s collides with the translator's temporaries" % name)
+    return name
+
+
+# --------------------------------------------- one function ----------------------------------------------
+class Val:
+    """a translated expression: Lean term (pure, over names bound so far), Python type, literal value if the
+    expression is an int literal (possibly negated)"""
+    def __init__(self, term, ty, lit=None):
+        self.term, self.ty, self.lit = term, ty, lit
+
+
+class FnTranslator:
+    def __init__(self, unit, entry):
+        self.unit = unit
+        self.path, self.pyname, self.lean, params, ret, locs = entry
+        # a parameter declared with a dict is an object of which only the listed attributes ("name") and argument-less
+        # pure accessor methods ("name()") are read: each becomes one Lean parameter `<param>_<name>`
+        self.params = {}
+        self.records = {}
+        self.objclass = {}
+        for k, v in params.items():
+            if isinstance(v, dict):
+                self.records[k] = {f: parse_ty(t) for f, t in v.items() if f != "__class__"}
+                if "__class__" in v:
+                    # an instance of a class of the same file: its methods / operators are resolved statically
+                    self.objclass[k] = v["__class__"]
+                    self.params[k] = ("Obj", v["__class__"])
+                else:
+                    self.params[k] = ("R", k)
+            else:
+                self.params[k] = parse_ty(v)
+        self.ret = parse_ty(ret)
+        self.locals = {k: parse_ty(v) for k, v in locs.items()}
+        self.needs = set()       # instance classes of α
+        self.ofnat = set()       # literals n needing OfNat α n
+        self.math = set()        # math functions passed as parameters
+        self.ntmp = 0
+        self.size = 0
+
+    # ---- bookkeeping
+    def need(self, *cls):
+        for c in cls:
+            self.needs.add(c)
+            if c == "DecidableLT":
+                self.needs.add("LT")
+            if c == "DecidableLE":
+                self.needs.add("LE")
+
+    def tmp(self):
+        self.ntmp += 1
+        return "py_t%d" % self.ntmp
+
+    def grow(self, s):
+        self.size += len(s)
+        if self.size > MAX_TERM:
+            raise Unsupported("translated term too large (continuation duplication)")
+        return s
+
+    # ---- coercions
+    def as_float(self, node, v):
+        if v.ty == "F":
+            return v.term
+        if v.ty == "I":
+            if v.lit is not None:
+                n = abs(v.lit)
+                self.ofnat.add(n)
+                if v.lit < 0:
+                    self.need("Neg")
+                    return "(-(%d : α))" % n
+                return "(%d : α)" % n
+            self.need("IntCast")
+            return "((%s : Int) : α)" % v.term
+        bad(node, "a %s where a number is expected" % (v.ty,))
+
+    def nonzero_literal(self, node):
+        if isinstance(node, ast.Name) and node.id not in self._env_names and node.id not in self.assigned:
+            c = self.unit.constant(node.id)      # a module constant defined as a non-zero literal
+            return c is not None and not isinstance(c, ast.Name) and self.nonzero_literal(c)
+        if isinstance(node, ast.Constant) and type(node.value) in (int, float) and node.value != 0 and node.value == node.value:
+            return True
+        if isinstance(node, ast.UnaryOp) and isinstance(node.op, (ast.USub, ast.UAdd)):
+            return self.nonzero_literal(node.operand)
+        return False
+
+    # ---- expressions.  expr(e, env, binds) appends (name, monadic term) pairs to binds and returns a Val
+    def expr(self, e, env, binds):
+        v = self.expr_s(e, env, binds)
+        if v.ty == "S":
+            bad(e, "a string where a value is needed (strings are only accepted as arguments of print)")
+        if isinstance(v.ty, tuple) and v.ty[0] == "Obj":
+            bad(e, "an object where a value is needed (an object can only be bound to a local name)")
+        return v
+
+    def expr_s(self, e, env, binds):
+        """as expr, but the result may be an (unrendered) string"""
+        if isinstance(e, ast.Constant):
+            v = e.value
+            if type(v) is bool:
+                return Val("true" if v else "false", "B")
+            if type(v) is int:
+                if v < 0:
+                    bad(e, "negative constant")
+                return Val("(%d : Int)" % v, "I", lit=v)
+            if type(v) is float:
+                if v != v or v in (float("inf"), float("-inf")):
+                    bad(e, "non-finite float literal")
+                self.need("OfScientific")
+                r = repr(v)
+                if "." not in r and "e" not in r and "E" not in r:
+                    r += ".0"
+                return Val("(%s : α)" % r, "F")
+            if type(v) is str:
+                return Val(None, "S")
+            bad(e, "constant of type %s" % type(v).__name__)
+        if isinstance(e, ast.Name):
+            if e.id not in env:
+                if e.id not in self.assigned:
+                    c = self.unit.constant(e.id)
+                    if c is not None:
+                        b = []
+                        v = self.expr(c, {}, b)      # a module constant: literal arithmetic only
+                        if b or v.ty not in ("F", "I"):
+                            bad(e, "module constant %s is not plain literal arithmetic" % e.id)
+                        return v
+                bad(e, "name %s is not a parameter, a module constant or a local bound on every path to here" % e.id)
+            if isinstance(env[e.id], tuple) and env[e.id][0] in ("R", "Obj"):
+                bad(e, "object %s used as a value (only its attributes can be read)" % e.id)
+            return Val(ident(e.id), env[e.id])
+        if isinstance(e, ast.UnaryOp):
+            v = self.expr(e.operand, env, binds)
+            if isinstance(e.op, ast.Not):
+                if v.ty != "B":
+                    bad(e, "`not` of a non-bool (truthiness is not in the subset)")
+                return Val("(!%s)" % v.term, "B")
+            if isinstance(e.op, ast.UAdd):
+                if v.ty not in ("F", "I"):
+                    bad(e, "unary + of a non-number")
+                return v
+            if isinstance(e.op, ast.USub):
+                if v.ty == "I":
+                    if v.lit is not None:
+                        return Val("(-%s)" % v.term, "I", lit=-v.lit)
+                    return Val("(-%s)" % v.term, "I")
+                if v.ty == "F":
+                    self.need("Neg")
+                    return Val("(-%s)" % v.term, "F")
+                bad(e, "unary - of a non-number")
+            bad(e, "unary operator")
+        if isinstance(e, ast.BinOp):
+            return self.binop(e, env, binds)
+        if isinstance(e, ast.Compare):
+            return self.compare(e, env, binds)
+        if isinstance(e, ast.BoolOp):
+            return self.boolop(e, env, binds)
+        if isinstance(e, ast.IfExp):
+            c = self.expr(e.test, env, binds)
+            if c.ty != "B":
+                bad(e, "condition is not a bool")
+            b1, b2 = [], []
+            v1 = self.expr(e.body, env, b1)
+            v2 = self.expr(e.orelse, env, b2)
+            if v1.ty != v2.ty:
+                if {v1.ty, v2.ty} == {"F", "I"}:
+                    v1 = Val(self.as_float(e.body, v1), "F")
+                    v2 = Val(self.as_float(e.orelse, v2), "F")
+                else:
+                    bad(e, "branches of a conditional expression have different types")
+            if not b1 and not b2:
+                return Val("(if %s then %s else %s)" % (c.term, v1.term, v2.term), v1.ty)
+            t = self.tmp()
+            binds.append((t, "(if %s then %s else %s)" % (c.term, self.close(b1, ".ok %s" % v1.term), self.close(b2, ".ok %s" % v2.term))))
+            return Val(t, v1.ty)
+        if isinstance(e, ast.Tuple):
+            vs = [self.expr(x, env, binds) for x in e.elts]
+            if len(vs) < 2:
+                bad(e, "tuple of fewer than two components")
+            return Val("(" + ", ".join(v.term for v in vs) + ")", ("T", tuple(v.ty for v in vs)))
+        if isinstance(e, ast.List):
+            vs = [self.expr(x, env, binds) for x in e.elts]
+            if not vs:
+                bad(e, "empty list display outside an assignment")
+            if all(v.ty == "I" for v in vs):
+                return Val("[" + ", ".join(v.term for v in vs) + "]", ("L", "I"))
+            if all(v.ty in ("F", "I") for v in vs):
+                return Val("[" + ", ".join(self.as_float(x, v) for x, v in zip(e.elts, vs)) + "]", ("L", "F"))
+            bad(e, "list display of non-numbers")
+        if isinstance(e, ast.Subscript):
+            v = self.expr(e.value, env, binds)
+            k = e.slice
+            if not (isinstance(k, ast.Constant) and type(k.value) is int and k.value >= 0):
+                bad(e, "subscript that is not a literal >= 0")
+            if isinstance(v.ty, tuple) and v.ty[0] == "L":
+                t = self.tmp()
+                binds.append((t, "(Py.getItem %s %d)" % (v.term, k.value)))
+                return Val(t, v.ty[1])
+            if isinstance(v.ty, tuple) and v.ty[0] == "T":
+                if k.value >= len(v.ty[1]):
+                    bad(e, "tuple index out of range")
+                return Val(tuple_proj(v.term, k.value, len(v.ty[1])), v.ty[1][k.value])
+            bad(e, "subscript of a %s" % (v.ty,))
+        if isinstance(e, ast.Attribute):
+            if isinstance(e.value, ast.Name) and e.value.id == "math" and "math" not in env and e.attr == "pi":
+                self.math.add("pi")
+                return Val("pi", "F")
+            if isinstance(e.value, ast.Name) and env.get(e.value.id) == ("R", e.value.id):
+                fields = self.records[e.value.id]
+                if e.attr not in fields:
+                    bad(e, "attribute %s.%s is not declared in the signature" % (e.value.id, e.attr))
+                return Val(ident(e.value.id + "_" + e.attr), fields[e.attr])
+            if isinstance(e.value, ast.Name) and isinstance(env.get(e.value.id), tuple) and env[e.value.id][0] == "Obj":
+                key = e.value.id + "." + e.attr
+                if key not in env:
+                    bad(e, "attribute %s of the local object is not set by its constructor" % key)
+                return Val(ident(e.value.id + "_" + e.attr), env[key])
+            bad(e, "attribute access")
+        if isinstance(e, ast.Call):
+            return self.call(e, env, binds)
+        bad(e, "expression %s" % type(e).__name__)
+
+    def close(self, binds, tail):
+        """Py.bind m1 (fun n1 => Py.bind m2 (fun n2 => ... tail))"""
+        s = tail
+        for name, m in reversed(binds):
+            s = "(Py.bind %s fun %s => %s)" % (m, name, s)
+        if not binds:
+            s = "(%s)" % s
+        return self.grow(s)
+
+    def binop(self, e, env, binds):
+        if isinstance(e.op, (ast.Sub, ast.Add)) and self.is_objexpr(e.left, env):
+            # operator of the left operand's class (static resolution; __r*__ fallbacks are not in the subset)
+            cls, terms = self.obj_terms(e.left, env, binds)
+            callee = self.unit.lookup(cls + "." + ("__sub__" if isinstance(e.op, ast.Sub) else "__add__"), self)
+            return self.call_translated(e, callee, [("obj", cls, terms), e.right], env, binds)
+        a = self.expr_s(e.left, env, binds)
+        b = self.expr_s(e.right, env, binds)
+        if (a.ty == "S") != (b.ty == "S"):
+            bad(e, "string mixed with a non-string")
+        op = e.op
+        if a.ty == "S" and b.ty == "S" and isinstance(op, ast.Add):
+            return Val(None, "S")
+        if a.ty not in ("F", "I") or b.ty not in ("F", "I"):
+            if isinstance(op, (ast.BitAnd, ast.BitOr)) and a.ty == "B" and b.ty == "B":
+                return Val("(%s %s %s)" % (a.term, "&&" if isinstance(op, ast.BitAnd) else "||", b.term), "B")
+            bad(e, "arithmetic on %s and %s" % (a.ty, b.ty))
+        if isinstance(op, (ast.Add, ast.Sub, ast.Mult)):
+            sym, cls = {ast.Add: ("+", "Add"), ast.Sub: ("-", "Sub"), ast.Mult: ("*", "Mul")}[type(op)]
+            if a.ty == "I" and b.ty == "I":
+                return Val("(%s %s %s)" % (a.term, sym, b.term), "I")
+            self.need(cls)
+            return Val("(%s %s %s)" % (self.as_float(e.left, a), sym, self.as_float(e.right, b)), "F")
+        if isinstance(op, ast.Pow):
+            if a.ty == "I" and b.ty == "I":
+                bad(e, "** on two ints")
+            self.math.add("pow")
+            return Val("(pow %s %s)" % (self.as_float(e.left, a), self.as_float(e.right, b)), "F")
+        if isinstance(op, ast.Div):
+            x, y = self.as_float(e.left, a), self.as_float(e.right, b)
+            self.need("Div")
+            if self.nonzero_literal(e.right):
+                return Val("(%s / %s)" % (x, y), "F")
+            self.need("LE", "DecidableLE")
+            self.ofnat.add(0)
+            t = self.tmp()
+            binds.append((t, "(Py.fdiv %s %s)" % (x, y)))
+            return Val(t, "F")
+        if isinstance(op, (ast.Mod, ast.FloorDiv)):
+            if not (a.ty == "I" and b.ty == "I"):
+                bad(e, "% or // on floats")
+            pure, eff = {ast.Mod: ("Int.fmod", "Py.imod"), ast.FloorDiv: ("Int.fdiv", "Py.ifloordiv")}[type(op)]
+            if self.nonzero_literal(e.right):
+                return Val("(%s %s %s)" % (pure, a.term, b.term), "I")
+            t = self.tmp()
+            binds.append((t, "(%s %s %s)" % (eff, a.term, b.term)))
+            return Val(t, "I")
+        bad(e, "operator %s" % type(op).__name__)
+
+    def cmp2(self, node, op, a, b, anode, bnode):
+        if a.ty == "I" and b.ty == "I":
+            x, y = a.term, b.term
+            if isinstance(op, ast.Eq):
+                return "(decide (%s = %s))" % (x, y)
+            if isinstance(op, ast.NotEq):
+                return "(!decide (%s = %s))" % (x, y)
+        elif a.ty in ("F", "I") and b.ty in ("F", "I"):
+            x, y = self.as_float(anode, a), self.as_float(bnode, b)
+            if isinstance(op, (ast.Eq, ast.NotEq)):
+                self.need("LE", "DecidableLE")
+                return ("(Py.feq %s %s)" if isinstance(op, ast.Eq) else "(!Py.feq %s %s)") % (x, y)
+            self.need("DecidableLT" if isinstance(op, (ast.Lt, ast.Gt)) else "DecidableLE")
+        else:
+            bad(node, "comparison of %s and %s" % (a.ty, b.ty))
+        if isinstance(op, ast.Lt):
+            return "(decide (%s < %s))" % (x, y)
+        if isinstance(op, ast.LtE):
+            return "(decide (%s ≤ %s))" % (x, y)
+        if isinstance(op, ast.Gt):
+            return "(decide (%s < %s))" % (y, x)
+        if isinstance(op, ast.GtE):
+            return "(decide (%s ≤ %s))" % (y, x)
+        bad(node, "comparison operator %s" % type(op).__name__)
+
+    def compare(self, e, env, binds):
+        nodes = [e.left] + list(e.comparators)
+        if len(nodes) > 3:
+            bad(e, "comparison chain longer than two")
+        vals = []
+        for i, n in enumerate(nodes):
+            b = []
+            v = self.expr(n, env, b)
+            if i == 2 and b:
+                bad(e, "third operand of a comparison chain can raise (Python would skip it)")
+            binds.extend(b)
+            vals.append(v)
+        parts = [self.cmp2(e, op, vals[i], vals[i + 1], nodes[i], nodes[i + 1]) for i, op in enumerate(e.ops)]
+        return Val(parts[0] if len(parts) == 1 else "(%s && %s)" % tuple(parts), "B")
+
+    def boolop(self, e, env, binds):
+        is_and = isinstance(e.op, ast.And)
+        first = self.expr(e.values[0], env, binds)
+        if first.ty != "B":
+            bad(e, "and/or on a non-bool (truthiness is not in the subset)")
+        acc = first.term
+        for n in e.values[1:]:
+            b = []
+            v = self.expr(n, env, b)
+            if v.ty != "B":
+                bad(e, "and/or on a non-bool (truthiness is not in the subset)")
+            if not b:
+                acc = "(%s %s %s)" % (acc, "&&" if is_and else "||", v.term)
+            else:
+                t = self.tmp()
+                inner = self.close(b, ".ok %s" % v.term)
+                if is_and:
+                    binds.append((t, "(if %s then %s else .ok false)" % (acc, inner)))
+                else:
+                    binds.append((t, "(if %s then .ok true else %s)" % (acc, inner)))
+                acc = t
+        return Val(acc, "B")
+
+    def is_objexpr(self, node, env):
+        if isinstance(node, ast.Name):
+            return isinstance(env.get(node.id), tuple) and env[node.id][0] == "Obj"
+        if isinstance(node, ast.BinOp) and isinstance(node.op, (ast.Sub, ast.Add)):
+            return self.is_objexpr(node.left, env)
+        return False
+
+    def obj_terms(self, node, env, binds):
+        """class and {attribute: Lean term} of an object-valued expression"""
+        if isinstance(node, ast.Name) and self.is_objexpr(node, env):
+            x = node.id
+            return env[x][1], {k[len(x) + 1:]: ident(x + "_" + k[len(x) + 1:]) for k in env if k.startswith(x + ".")}
+        v = self.expr_s(node, env, binds)
+        if not (isinstance(v.ty, tuple) and v.ty[0] == "Obj"):
+            bad(node, "an object is expected")
+        fields = self.unit.ctor_fields(v.ty[1])
+        if fields is None:
+            bad(node, "class %s has no constructor of the accepted form" % v.ty[1])
+        t = self.tmp()
+        binds.append((t, "(.ok %s)" % v.term))
+        return v.ty[1], {g: tuple_proj(t, i, len(fields)) for i, g in enumerate(fields)}
+
+    def call_translated(self, node, callee, actuals, env, binds):
+        """call of a translated function; an actual is an ast node (a value) or ("obj", class, {attribute: term})"""
+        if callee is None:
+            bad(node, "call of a function that is not (or could not be) translated")
+        if len(actuals) != len(callee.params):
+            bad(node, "arity / default arguments")
+        args = []
+        for a, (pn, pt) in zip(actuals, callee.params.items()):
+            if pn in callee.records:
+                if not (isinstance(a, tuple) and a[0] == "obj"):
+                    if isinstance(a, ast.AST) and self.is_objexpr(a, env):
+                        cls, terms = self.obj_terms(a, env, binds)
+                        a = ("obj", cls, terms)
+                    else:
+                        bad(node, "argument %s of %s must be an object" % (pn, callee.pyname))
+                if pn in callee.objclass and callee.objclass[pn] != a[1]:
+                    bad(node, "argument %s of %s: a %s where a %s is declared" % (pn, callee.pyname, a[1], callee.objclass[pn]))
+                for fld, ft in callee.records[pn].items():
+                    if fld not in a[2] or ft != "F":
+                        bad(node, "attribute %s read by %s is not available on the argument" % (fld, callee.pyname))
+                    args.append(a[2][fld])
+                continue
+            if isinstance(a, tuple):
+                bad(node, "an object where %s expects a value" % callee.pyname)
+            v = self.expr(a, env, binds)
+            if pt == "F" and v.ty in ("F", "I"):
+                args.append(self.as_float(a, v))
+            elif v.ty == pt:
+                args.append(v.term)
+            else:
+                bad(a, "argument %s of %s: a %s where a %s is declared" % (pn, callee.pyname, v.ty, pt))
+        self.needs |= callee.needs
+        self.ofnat |= callee.ofnat
+        self.math |= callee.math
+        t = self.tmp()
+        binds.append((t, "(%s)" % " ".join([callee.lean] + [m for m in MATH_ORDER if m in callee.math] + args)))
+        return Val(t, callee.ret)
+
+    def call(self, e, env, binds):
+        if e.keywords or any(isinstance(a, ast.Starred) for a in e.args):
+            bad(e, "keyword / starred arguments")
+        f = e.func
+        # strings are opaque: "..".format(..) and str(..) are not rendered (their arguments are assumed not to raise)
+        if isinstance(f, ast.Attribute) and f.attr == "format" and isinstance(f.value, ast.Constant) and isinstance(f.value.value, str):
+            return Val(None, "S")
+        if isinstance(f, ast.Name) and f.id == "str" and "str" not in env and len(e.args) == 1:
+            return Val(None, "S")
+        # argument-less accessor of a declared object parameter
+        if isinstance(f, ast.Attribute) and isinstance(f.value, ast.Name) and env.get(f.value.id) == ("R", f.value.id):
+            fields = self.records[f.value.id]
+            if e.args or (f.attr + "()") not in fields:
+                bad(e, "method %s.%s is not declared as an accessor in the signature" % (f.value.id, f.attr))
+            ft = fields[f.attr + "()"]
+            if isinstance(ft, tuple) and ft[0] == "Obj":
+                # an accessor declared to return an object: the tuple of its attributes (one parameter each)
+                cf = self.unit.ctor_fields(ft[1])
+                if cf is None:
+                    bad(e, "class %s has no constructor of the accepted form" % ft[1])
+                return Val("(" + ", ".join(ident(f.value.id + "_" + f.attr + "_" + g) for g in cf) + ")", ft)
+            return Val(ident(f.value.id + "_" + f.attr), ft)
+        # method of an object (local object, class-typed parameter, result of an operator), resolved statically by its class
+        if isinstance(f, ast.Attribute) and self.is_objexpr(f.value, env):
+            cls, terms = self.obj_terms(f.value, env, binds)
+            callee = self.unit.lookup(cls + "." + f.attr, self)
+            return self.call_translated(e, callee, [("obj", cls, terms)] + list(e.args), env, binds)
+        # x.is_integer() on a float
+        if isinstance(f, ast.Attribute) and f.attr == "is_integer" and not e.args:
+            v = self.expr(f.value, env, binds)
+            if v.ty != "F":
+                bad(e, "is_integer of a non-float")
+            self.math.add("floor")
+            self.need("IntCast", "LE", "DecidableLE")
+            return Val("(Py.isInteger floor %s)" % v.term, "B")
+        # math.xxx
+        if isinstance(f, ast.Attribute) and isinstance(f.value, ast.Name) and f.value.id == "math" and "math" not in env:
+            args = [self.expr(a, env, binds) for a in e.args]
+            if f.attr == "fabs":
+                if len(args) != 1:
+                    bad(e, "math.fabs arity")
+                self.need("Sub", "DecidableLT")
+                self.ofnat.add(0)
+                return Val("(Py.fabs %s)" % self.as_float(e.args[0], args[0]), "F")
+            if f.attr in MATH_FUNS and f.attr not in ("trunc", "pi", "pow"):
+                if len(args) != MATH_FUNS[f.attr][0]:
+                    bad(e, "math.%s arity" % f.attr)
+                self.math.add(f.attr)
+                return Val("(%s %s)" % (f.attr, " ".join(self.as_float(a, v) for a, v in zip(e.args, args))), MATH_FUNS[f.attr][1])
+            bad(e, "math.%s is not in the subset" % f.attr)
+        if isinstance(f, ast.Name) and f.id not in env:
+            name = f.id
+            if name in ("abs", "float", "min", "max", "int", "pow"):
+                args = [self.expr(a, env, binds) for a in e.args]
+                if name == "pow":
+                    if len(args) != 2 or any(a.ty not in ("F", "I") for a in args) or all(a.ty == "I" for a in args):
+                        bad(e, "pow is only accepted on two numbers, one of them a float")
+                    self.math.add("pow")
+                    return Val("(pow %s %s)" % (self.as_float(e.args[0], args[0]), self.as_float(e.args[1], args[1])), "F")
+                if name == "int":
+                    if len(args) != 1 or args[0].ty not in ("F", "I"):
+                        bad(e, "int() of a non-number")
+                    if args[0].ty == "I":
+                        return args[0]
+                    self.math.add("trunc")
+                    return Val("(trunc %s)" % args[0].term, "I")
+                if name == "abs":
+                    if len(args) != 1 or args[0].ty != "F":
+                        bad(e, "abs of a non-float")
+                    self.need("Sub", "DecidableLT")
+                    self.ofnat.add(0)
+                    return Val("(Py.fabs %s)" % args[0].term, "F")
+                if name == "float":
+                    if len(args) != 1 or args[0].ty not in ("F", "I"):
+                        bad(e, "float() of a non-number")
+                    return Val(self.as_float(e.args[0], args[0]), "F")
+                if len(args) != 2 or any(a.ty not in ("F", "I") for a in args) or all(a.ty == "I" for a in args):
+                    bad(e, "%s is only accepted on two numbers, one of them a float" % name)
+                self.need("DecidableLT")
+                return Val("(Py.f%s %s %s)" % (name, self.as_float(e.args[0], args[0]), self.as_float(e.args[1], args[1])), "F")
+            if name == "list" and not e.args:
+                bad(e, "list() outside an assignment")
+            cf = self.unit.ctor_fields(name)
+            if cf is not None:
+                # C(a1, .., an): the object as the tuple of its attributes
+                if len(e.args) != len(cf):
+                    bad(e, "constructor call with defaulted arguments")
+                vals = [self.expr(a, env, binds) for a in e.args]
+                if any(v.ty not in ("F", "I") for v in vals):
+                    bad(e, "constructor argument that is not a number")
+                return Val("(" + ", ".join(self.as_float(a, v) for a, v in zip(e.args, vals)) + ")", ("Obj", name))
+            callee = self.unit.lookup(name, self)
+        elif isinstance(f, ast.Attribute) and isinstance(f.value, ast.Name) and f.value.id not in env:
+            callee = self.unit.lookup(f.value.id + "." + f.attr, self)
+        else:
+            bad(e, "call of something that is not a plain function name")
+        return self.call_translated(e, callee, list(e.args), env, binds)
+
+    # ---- statements
+    def coerce(self, node, v, want):
+        """render v at the declared type `want` (int -> float conversion, `some` for an optional)"""
+        if want == "F" and v.ty in ("F", "I"):
+            return self.as_float(node, v)
+        if v.ty == want:
+            return v.term
+        if isinstance(want, tuple) and want[0] == "O":
+            return "(some %s)" % self.coerce(node, v, want[1])
+        bad(node, "a %s where %s is declared" % (v.ty, want))
+
+    def ret_value(self, node, env, binds):
+        rt = self.ret[1] if isinstance(self.ret, tuple) and self.ret[0] == "O" else self.ret
+        if isinstance(node, ast.Tuple) and isinstance(rt, tuple) and rt[0] == "T" and len(rt[1]) == len(node.elts):
+            comps = [self.coerce(x, self.expr(x, env, binds), w) for x, w in zip(node.elts, rt[1])]
+            term = "(" + ", ".join(comps) + ")"
+            return "(some %s)" % term if rt is not self.ret else term
+        return self.coerce(node, self.expr(node, env, binds), self.ret)
+
+    def block(self, stmts, env, fresh):
+        """fresh: names of lists created in this function (append allowed)"""
+        if not stmts:
+            if isinstance(self.ret, tuple) and self.ret[0] == "O":
+                return "(.ok none)"
+            raise Unsupported("a path falls off the end of the function (returns None) but the declared return type is not optional")
+        s, rest = stmts[0], stmts[1:]
+        if isinstance(s, ast.Pass):
+            return self.block(rest, env, fresh)
+        if isinstance(s, ast.Expr):
+            v = s.value
+            if isinstance(v, ast.Constant) and isinstance(v.value, str):
+                return self.block(rest, env, fresh)        # docstring
+            if isinstance(v, ast.Call) and isinstance(v.func, ast.Name) and v.func.id == "print" and "print" not in env:
+                return self.block(rest, env, fresh)        # output only
+            if isinstance(v, ast.Call) and isinstance(v.func, ast.Attribute) and v.func.attr == "append" \
+                    and isinstance(v.func.value, ast.Name) and len(v.args) == 1 and not v.keywords:
+                x = v.func.value.id
+                if x not in fresh or x not in env:
+                    bad(s, "append to a list that was not created in this function")
+                binds = []
+                a = self.expr(v.args[0], env, binds)
+                elt = env[x][1]
+                if elt is None:
+                    elt = a.ty if a.ty != "I" or a.lit is None else None
+                    if elt is None:
+                        bad(s, "cannot type the list %s from a bare integer literal" % x)
+                if elt == "F":
+                    term = self.as_float(v.args[0], a)
+                elif a.ty == elt:
+                    term = a.term
+                else:
+                    bad(s, "append of a %s to a list of %s" % (a.ty, elt))
+                env2 = dict(env)
+                env2[x] = ("L", elt)
+                lx = ident(x)
+                if env[x][1] is None:
+                    body = "let %s : %s := [%s];\n%s" % (lx, lean_ty(("L", elt)), term, self.block(rest, env2, fresh))
+                else:
+                    body = "let %s := %s ++ [%s];\n%s" % (lx, lx, term, self.block(rest, env2, fresh))
+                return self.close(binds, body)
+            bad(s, "expression statement")
+        if isinstance(s, ast.Return):
+            if s.value is None or (isinstance(s.value, ast.Constant) and s.value.value is None):
+                if isinstance(self.ret, tuple) and self.ret[0] == "O":
+                    return "(.ok none)"
+                bad(s, "returns None but the declared return type is not optional")
+            if isinstance(self.ret, tuple) and self.ret[0] == "Obj":
+                fields = self.unit.ctor_fields(self.ret[1])
+                if isinstance(s.value, ast.Name) and env.get(s.value.id) == ("Obj", self.ret[1]):
+                    x = s.value.id
+                    return "(.ok (%s))" % ", ".join(ident(x + "_" + f) for f in fields)
+                binds = []
+                v = self.expr_s(s.value, env, binds)
+                if v.ty != self.ret:
+                    bad(s, "returns a %s where %s is declared" % (v.ty, self.ret))
+                return self.close(binds, ".ok %s" % v.term)
+            binds = []
+            term = self.ret_value(s.value, env, binds)
+            return self.close(binds, ".ok %s" % term)
+        if isinstance(s, ast.Assign):
+            if len(s.targets) != 1:
+                bad(s, "chained assignment")
+            tgt = s.targets[0]
+            if isinstance(tgt, ast.Attribute) and isinstance(tgt.value, ast.Name) and isinstance(env.get(tgt.value.id), tuple) \
+                    and env[tgt.value.id][0] == "Obj":
+                # store into an attribute of an object created in this function (no alias of it can exist)
+                key = tgt.value.id + "." + tgt.attr
+                if key not in env:
+                    bad(s, "attribute %s is not set by the constructor" % key)
+                if tgt.value.id in self.readonly:
+                    bad(s, "store into an attribute of a parameter (visible to the caller)")
+                binds = []
+                v = self.expr(s.value, env, binds)
+                if not (v.ty == env[key] or (env[key] == "F" and v.ty == "I")):
+                    bad(s, "attribute %s changes type" % key)
+                term = self.as_float(s.value, v) if env[key] == "F" else v.term
+                body = "let %s : %s := %s;\n%s" % (ident(tgt.value.id + "_" + tgt.attr), lean_ty(env[key]), term, self.block(rest, env, fresh))
+                return self.close(binds, body)
+            if isinstance(tgt, ast.Name) and isinstance(s.value, ast.Call) and isinstance(s.value.func, ast.Name) \
+                    and s.value.func.id not in env and self.unit.ctor_fields(s.value.func.id) is not None:
+                # x = C(a1, .., an) for a class C of this file whose __init__ only stores its parameters
+                x, cls = tgt.id, s.value.func.id
+                fields = self.unit.ctor_fields(cls)
+                if s.value.keywords or len(s.value.args) != len(fields):
+                    bad(s, "constructor call with keyword / defaulted arguments")
+                binds = []
+                vals = [self.expr(a, env, binds) for a in s.value.args]
+                env2 = {k: t for k, t in env.items() if not k.startswith(x + ".")}
+                env2[x] = ("Obj", cls)
+                lets = []
+                for f, a, v in zip(fields, s.value.args, vals):
+                    if v.ty not in ("F", "I"):
+                        bad(s, "constructor argument that is not a number")
+                    env2[x + "." + f] = "F"          # coordinates are floats
+                    lets.append("let %s : α := %s" % (ident(x + "_" + f), self.as_float(a, v)))
+                return self.close(binds, ";\n".join(lets) + ";\n" + self.block(rest, env2, fresh - {x}))
+            if isinstance(tgt, ast.Name) and (isinstance(s.value, ast.Call) and isinstance(s.value.func, ast.Attribute)
+                                              or isinstance(s.value, ast.BinOp) and self.is_objexpr(s.value, env)):
+                binds = []
+                v = self.expr_s(s.value, env, binds)
+                if isinstance(v.ty, tuple) and v.ty[0] == "Obj":
+                    x, cls = tgt.id, v.ty[1]
+                    fields = self.unit.ctor_fields(cls)
+                    if fields is None:
+                        bad(s, "class %s has no constructor of the accepted form" % cls)
+                    t = self.tmp()
+                    lets = ["let %s : (%s) := %s" % (t, " × ".join(["α"] * len(fields)), v.term)]
+                    env2 = {k: ty for k, ty in env.items() if not k.startswith(x + ".")}
+                    env2[x] = ("Obj", cls)
+                    self.readonly.discard(x)
+                    for i, g in enumerate(fields):
+                        env2[x + "." + g] = "F"
+                        lets.append("let %s : α := %s" % (ident(x + "_" + g), tuple_proj(t, i, len(fields))))
+                    return self.close(binds, ";\n".join(lets) + ";\n" + self.block(rest, env2, fresh - {x}))
+            if isinstance(tgt, ast.Name):
+                x = tgt.id
+                # list creation
+                val = s.value
+                if (isinstance(val, ast.Call) and isinstance(val.func, ast.Name) and val.func.id == "list" and not val.args
+                        and not val.keywords and "list" not in env) or (isinstance(val, ast.List) and not val.elts):
+                    env2 = dict(env)
+                    env2[x] = ("L", None)       # element type fixed by the first append
+                    return self.block(rest, env2, fresh | {x})
+                binds = []
+                v = self.expr_s(val, env, binds)
+                ty = v.ty
+                term = v.term
+                if x in self.locals:
+                    want = self.locals[x]
+                    if want == "F" and ty in ("F", "I"):
+                        term, ty = self.as_float(val, v), "F"
+                    elif want != ty:
+                        bad(s, "local %s is declared %s but is assigned a %s" % (x, want, ty))
+                elif ty == "I" and v.lit is not None:
+                    bad(s, "local %s is bound to a bare integer literal: declare it int or float in the signature" % x)
+                if isinstance(ty, tuple) and ty[0] == "L" and ty[1] is None:
+                    bad(s, "alias of an untyped empty list")
+                if ty == "S":
+                    if binds:
+                        bad(s, "string-valued expression with a part that can raise")
+                    env2 = dict(env)
+                    env2[x] = "S"           # usable only as an argument of print(): nothing accepts an S
+                    return self.block(rest, env2, fresh - {x})
+                env2 = dict(env)
+                env2[x] = ty
+                fresh2 = (fresh | {x}) if isinstance(val, ast.List) else (fresh - {x})
+                body = "let %s : %s := %s;\n%s" % (ident(x), lean_ty(ty), term, self.block(rest, env2, fresh2))
+                return self.close(binds, body)
+            if isinstance(tgt, ast.Tuple) and all(isinstance(t, ast.Name) for t in tgt.elts):
+                binds = []
+                v = self.expr(s.value, env, binds)
+                if not (isinstance(v.ty, tuple) and v.ty[0] == "T" and len(v.ty[1]) == len(tgt.elts)):
+                    bad(s, "unpacking of something that is not a tuple of the same length")
+                t = self.tmp()
+                env2 = dict(env)
+                lets = ["let %s : %s := %s" % (t, lean_ty(v.ty), v.term)]
+                names = [n.id for n in tgt.elts]
+                if len(set(names)) != len(names):
+                    bad(s, "repeated name in unpacking")
+                for i, n in enumerate(names):
+                    env2[n] = v.ty[1][i]
+                    lets.append("let %s : %s := %s" % (ident(n), lean_ty(v.ty[1][i]), tuple_proj(t, i, len(names))))
+                body = ";\n".join(lets) + ";\n" + self.block(rest, env2, fresh - set(names))
+                return self.close(binds, body)
+            bad(s, "assignment target")
+        if isinstance(s, ast.AugAssign):
+            if isinstance(s.target, ast.Name):
+                tstore, tload = ast.Name(id=s.target.id, ctx=ast.Store()), ast.Name(id=s.target.id, ctx=ast.Load())
+            elif isinstance(s.target, ast.Attribute) and isinstance(s.target.value, ast.Name):
+                tstore = ast.Attribute(value=ast.Name(id=s.target.value.id, ctx=ast.Load()), attr=s.target.attr, ctx=ast.Store())
+                tload = ast.Attribute(value=ast.Name(id=s.target.value.id, ctx=ast.Load()), attr=s.target.attr, ctx=ast.Load())
+            else:
+                bad(s, "augmented assignment target")
+            new = ast.Assign(targets=[tstore], value=ast.BinOp(left=tload, op=s.op, right=s.value))
+            ast.copy_location(new, s)
+            ast.fix_missing_locations(new)
+            return self.block([new] + rest, env, fresh)
+        if isinstance(s, ast.If):
+            binds = []
+            c = self.expr(s.test, env, binds)
+            if c.ty != "B":
+                bad(s, "condition is not a bool (truthiness is not in the subset)")
+            a = self.block(list(s.body) + rest, env, fresh)
+            b = self.block(list(s.orelse) + rest, env, fresh)
+            return self.close(binds, "if %s then\n%s\nelse\n%s" % (c.term, a, b))
+        bad(s, "statement %s" % type(s).__name__)
+
+    def translate(self, fdef):
+        a = fdef.args
+        if a.vararg or a.kwarg or a.kwonlyargs or a.posonlyargs:
+            raise Unsupported("parameter kinds")
+        names = [x.arg for x in a.args]
+        if names != list(self.params):
+            raise Unsupported("parameters are %s, the declared signature has %s" % (names, list(self.params)))
+        for d in fdef.decorator_list:
+            if not (isinstance(d, ast.Name) and d.id == "staticmethod"):
+                raise Unsupported("decorator")
+        env = dict(self.params)
+        self.readonly = set(self.objclass)       # attributes of a parameter object are never stored into
+        for k in self.objclass:
+            for fld, ft in self.records[k].items():
+                if fld.endswith("()"):
+                    raise Unsupported("accessor in a class-typed parameter")
+                env[k + "." + fld] = ft
+        self._env_names = set(self.params)
+        self.assigned = {n.id for n in ast.walk(fdef) if isinstance(n, ast.Name) and isinstance(n.ctx, ast.Store)}
+        body = self.block(list(fdef.body), env, frozenset())
+        alltypes = [t for p, t in self.params.items() if p not in self.records] + [self.ret]
+        for r in self.records.values():
+            alltypes += list(r.values())
+        alpha = any(uses_alpha(t) for t in alltypes) or self.needs or self.ofnat or self.math
+        sig = []
+        if alpha:
+            sig.append("{α : Type}")
+            for c in INST_ORDER:
+                if c in self.needs:
+                    sig.append("[%s α]" % c)
+            for n in sorted(self.ofnat):
+                sig.append("[OfNat α %d]" % n)
+        for m in MATH_ORDER:
+            if m in self.math:
+                sig.append("(%s : %s)" % (m, MATH_FUNS[m][2]))
+        for p, t in self.params.items():
+            if p in self.records:
+                for f, ft in self.records[p].items():
+                    base = p + "_" + f.replace("()", "")
+                    if isinstance(ft, tuple) and ft[0] == "Obj":
+                        fields = self.unit.ctor_fields(ft[1])
+                        if fields is None:
+                            raise Unsupported("class %s has no constructor of the accepted form" % ft[1])
+                        for g in fields:
+                            sig.append("(%s : α)" % ident(base + "_" + g))
+                    else:
+                        sig.append("(%s : %s)" % (ident(base), lean_ty(ft)))
+            else:
+                sig.append("(%s : %s)" % (ident(p), lean_ty(t)))
+        if isinstance(self.ret, tuple) and self.ret[0] == "Obj":
+            fields = self.unit.ctor_fields(self.ret[1])
+            if fields is None:
+                raise Unsupported("class %s has no constructor of the accepted form" % self.ret[1])
+            rty = "(" + " × ".join(["α"] * len(fields)) + ")"
+        else:
+            rty = lean_ty(self.ret)
+        head = "def %s %s : Py.M %s :=\n" % (self.lean, " ".join(sig), rty)
+        return head + "".join("  " + l + "\n" for l in body.split("\n"))
+
+
+# ----------------------------------------------- one file -----------------------------------------------
+class Unit:
+    """one python source file -> one Lean module"""
+    def __init__(self, repo, path, entries):
+        self.path, self.entries = path, entries
+        self.src = os.path.join(repo, "tracklib", path)
+        self.done = {}      # python name -> FnTranslator (translated) | None (failed)
+        self.out = []       # (lean text | comment)
+        self.defs = {}
+        self.tree = None
+
+    def find(self, qual):
+        parts = qual.split(".")
+        body = self.tree.body
+        for i, p in enumerate(parts):
+            hit = [n for n in body if isinstance(n, (ast.FunctionDef, ast.ClassDef)) and n.name == p]
+            if len(hit) != 1:
+                return None
+            node = hit[0]
+            if i < len(parts) - 1:
+                if not isinstance(node, ast.ClassDef):
+                    return None
+                body = node.body
+            else:
+                return node if isinstance(node, ast.FunctionDef) else None
+        return None
+
+    def constant(self, name):
+        """defining expression of a module-level name bound exactly once at module level (and never declared global)"""
+        hits = []
+        for n in self.tree.body:
+            if isinstance(n, ast.Assign) and any(isinstance(t, ast.Name) and t.id == name for t in n.targets):
+                hits.append(n.value if len(n.targets) == 1 else None)
+            elif isinstance(n, ast.AnnAssign) and isinstance(n.target, ast.Name) and n.target.id == name:
+                hits.append(n.value)
+            elif isinstance(n, ast.AugAssign) and isinstance(n.target, ast.Name) and n.target.id == name:
+                hits.append(None)
+        for n in ast.walk(self.tree):
+            if isinstance(n, (ast.Global, ast.Nonlocal)) and name in n.names:
+                return None
+        if len(hits) != 1 or hits[0] is None:
+            return None
+        return hits[0]
+
+    def ctor_fields(self, cls):
+        """attribute names, in parameter order, of a class of this file whose __init__ is exactly
+        `self.p = p` for each of its parameters (docstring allowed); None otherwise"""
+        hit = [n for n in self.tree.body if isinstance(n, ast.ClassDef) and n.name == cls]
+        if len(hit) != 1:
+            return None
+        inits = [n for n in hit[0].body if isinstance(n, ast.FunctionDef) and n.name == "__init__"]
+        if len(inits) != 1 or inits[0].decorator_list:
+            return None
+        a = inits[0].args
+        if a.vararg or a.kwarg or a.kwonlyargs or a.posonlyargs or not a.args:
+            return None
+        params = [x.arg for x in a.args]
+        body = [st for st in inits[0].body
+                if not (isinstance(st, ast.Expr) and isinstance(st.value, ast.Constant) and isinstance(st.value.value, str))]
+        fields = []
+        for st, pname in zip(body, params[1:]):
+            ok = (isinstance(st, ast.Assign) and len(st.targets) == 1 and isinstance(st.targets[0], ast.Attribute)
+                  and isinstance(st.targets[0].value, ast.Name) and st.targets[0].value.id == params[0]
+                  and isinstance(st.value, ast.Name) and st.value.id == pname)
+            if not ok:
+                return None
+            fields.append(st.targets[0].attr)
+        if len(body) != len(params) - 1 or len(set(fields)) != len(fields):
+            return None
+        return fields
+
+    def lookup(self, pyname, caller):
+        entry = [e for e in self.entries if e[1] == pyname]
+        if not entry:
+            return None
+        if pyname not in self.done:
+            self.run(entry[0])
+        return self.done[pyname]
+
+    def run(self, entry):
+        pyname = entry[1]
+        if pyname in self.done:
+            return
+        self.done[pyname] = None   # a recursive call finds None: recursion is not in the subset
+        try:
+            node = self.find(pyname)
+            if node is None:
+                raise Unsupported("no unique function %s in %s" % (pyname, self.path))
+            tr = FnTranslator(self, entry)
+            text = tr.translate(node)
+            self.done[pyname] = tr
+            self.out.append("/-- `%s` of tracklib/%s -/\n%s" % (pyname, self.path, text))
+        except Unsupported as ex:
+            self.out.append("-- NOT TRANSLATED: `%s` of tracklib/%s: %s\n" % (pyname, self.path, ex))
+
+    def render(self):
+        mod = module_name(self.path)
+        head = ("import TracklibVerif.Model.PyPrelude\n"
+                "/-! GENERATED by tools/py2lean.py from tracklib/%s — do not edit, not under version control.\n"
+                "Semantics of every `Py.*` operation: lean/TracklibVerif/Model/PyPrelude.lean. -/\n"
+                "set_option linter.unusedVariables false\n"
+                "namespace TV.Gen.%s\nopen TV\n\n" % (self.path, mod))
+        try:
+            with open(self.src) as fh:
+                self.tree = ast.parse(fh.read())
+        except (OSError, SyntaxError) as ex:
+            return head + "-- NOT TRANSLATED: cannot read / parse the source: %s\n\nend TV.Gen.%s\n" % (str(ex).replace("\n", " "), mod)
+        for e in self.entries:
+            self.run(e)
+        return head + "\n".join(self.out) + "\nend TV.Gen.%s\n" % mod
+
+
+def module_name(path):
+    base = os.path.basename(path)[:-3]
+    return "".join(p.capitalize() for p in base.split("_"))
+
+
+def main():
+    ap = argparse.ArgumentParser()
+    ap.add_argument("--repo", default=os.environ.get("TRACKLIB_REPO", "/repo"))
+    ap.add_argument("--out", default=os.path.join(VERIF, "lean", "TracklibVerif", "Gen"))
+    ap.add_argument("--print", action="store_true", help="write the generated modules to stdout instead")
+    a = ap.parse_args()
+    files = {}
+    for e in WHITELIST:
+        files.setdefault(e[0], []).append(e)
+    outs = {}
+    for path, entries in files.items():
+        outs[module_name(path) + ".lean"] = Unit(a.repo, path, entries).render()
+    if a.print:
+        for k, v in outs.items():
+            print("-- ==== %s ====\n%s" % (k, v))
+        return 0
+    os.makedirs(a.out, exist_ok=True)
+    for f in os.listdir(a.out):
+        if f.endswith(".lean") and f not in outs:
+            os.remove(os.path.join(a.out, f))
+    changed = 0
+    for k, v in outs.items():
+        p = os.path.join(a.out, k)
+        old = None
+        if os.path.exists(p):
+            with open(p) as fh:
+                old = fh.read()
+        if old != v:
+            with open(p, "w") as fh:
+                fh.write(v)
+            changed += 1
+    nt = sum(v.count("-- NOT TRANSLATED") for v in outs.values())
+    print("py2lean: %d modules (%d rewritten), %d functions not translated" % (len(outs), changed, nt))
+    return 0
+
+
+if __name__ == "__main__":
+    sys.exit(main())
